@@ -210,8 +210,11 @@ def run(ctx: Ctx) -> None:
     for i, c in enumerate(cases):
         if c["kind"] == "counted":
             continue
+        # definitions with a break (corpus or generated) are where the walk's choices hang on container order: their
+        # base presentation also runs under hash seeds 3..7 in the quick tier
+        extra = [3, 4, 5, 6, 7] if quick and (c["kind"] == "corpus" or pvlib.has(c["blk"], "brk")) else []
         for name, pv in c["pres"].items():
-            for hs in seeds:
+            for hs in seeds + (extra if name == "base" else []):
                 if name != "base" and hs != seeds[(list(c["pres"]).index(name)) % len(seeds)] and quick:
                     continue  # quick: every presentation under one seed, the base under all seeds
                 reqs.append({"op": "learn", "chunks": [pv], "hash_seed": hs, "uuid_seed": ctx.seed * 31 + i * 7 + hs,
